@@ -3,9 +3,11 @@ EXTENDS RepoTrace
 ChainParent == [r |-> "", s |-> "r", l |-> "s"]
 StarParent  == [r |-> "", s |-> "r", l |-> "r"]
 TwoParent   == [r |-> "", s |-> "r", l |-> ""]
+DeepParent  == [r |-> "", s |-> "r", m |-> "s", l |-> "m"]
 ChainAlt == [r |-> {}, s |-> {"r", ""}, l |-> {"s", "r"}]
 StarAlt  == [r |-> {}, s |-> {"r"}, l |-> {"r", "s"}]
 TwoAlt   == [r |-> {}, s |-> {"r"}, l |-> {"", "s"}]
+DeepAlt  == [r |-> {}, s |-> {}, m |-> {"s", "r"}, l |-> {"m", "s"}]
 AnyFlagSets == SUBSET Flags
 AllEnv   == {"Edit", "Touch", "DeleteArt", "Truncate", "StripKey", "ResaveArt", "Replace", "MakeCsr", "EditProfile", "Expire", "SetIssuer", "RemoveConfig", "AddConfig"}
 LeafProfile == {"l"}
